@@ -369,6 +369,9 @@ impl Mapper<Size1GiB> for RecursivePageTable<'_> {
         if p3[page.p3_index()].is_unused() {
             return Err(FlagUpdateError::PageNotMapped);
         }
+        if !p3[page.p3_index()].flags().contains(Flags::HUGE_PAGE) {
+            return Err(FlagUpdateError::ParentEntryHugePage);
+        }
         p3[page.p3_index()].set_flags(flags | Flags::HUGE_PAGE);
 
         Ok(MapperFlush::new(page))
@@ -514,6 +517,9 @@ impl Mapper<Size2MiB> for RecursivePageTable<'_> {
 
         if p2[page.p2_index()].is_unused() {
             return Err(FlagUpdateError::PageNotMapped);
+        }
+        if !p2[page.p2_index()].flags().contains(Flags::HUGE_PAGE) {
+            return Err(FlagUpdateError::ParentEntryHugePage);
         }
 
         p2[page.p2_index()].set_flags(flags | Flags::HUGE_PAGE);
